@@ -21,9 +21,9 @@ for name in sorted(os.listdir(SEEDED)):
     others = {}
     if not ck.get("detected") and res.get("tests_ok") and res.get("demo_ok"):
         # missed by the property's own check: do the checks of neighbouring properties see it?
-        gen_group = ["C01", "C02", "C03", "C15", "C16", "C19", "C17", "C18", "C20", "C14"]
+        gen_group = ["C18", "C02", "C03", "C01", "C15", "C16", "C19", "C17", "C20", "C14"]
         core_group = ["C04", "C05", "C06", "C09", "C07", "C08", "C10"]
-        group = [p for p in (gen_group if prop in gen_group else core_group) if p != prop][:5]
+        group = [p for p in (gen_group if prop in gen_group else core_group) if p != prop][:6]
         r2 = subprocess.run([os.path.join(HERE, "tools", "seedtest.py"), d] + group, capture_output=True, text=True)
         try:
             others = {k: v.get("detected") for k, v in (json.loads(r2.stdout).get("checks") or {}).items()}
